@@ -185,6 +185,12 @@ def run(res, tier):
     from . import c19 as _c19
     res.rule("R-ARENA-GUARD", "mj_arenaAllocByte tests exactly the amount it consumes against narena - pstack before advancing", floor=1)
     _c19.arena_guard(res, "R-ARENA-GUARD")
+    # what a rewind of the arena releases is cleared with it (rule shared with C01): the truncated constraint set stays consistent
+    from . import c01 as _c01
+    from .. import callgraph as _cg, xmacro as _xm
+    res.rule("R-ARENA-STALE", "every rewind of d->parena is accompanied by clearing what it releases: back to the end of the contact "
+             "array -> the constraint (efc_*) arrays; back to a saved value -> the arrays allocated since", floor=6)
+    _c01.arena_stale(res, _cg.build(), {r["name"] for r in _xm.pointers("MJDATA_ARENA_POINTERS")})
     res.extra["producers"] = sorted(producers)
     res.extra["status_functions"] = {k: v["ret_literals"] for k, v in status_funcs.items()}
     res.extra["fixpoint_rounds"] = rounds
